@@ -118,10 +118,37 @@ def streams():
     return [StrStream(), HoStream()]
 
 
+ASSUMPTIONS = [
+    "Exact arithmetic (rnd = Num) for the string theorems: 'up to floating-point rounding' in the property. The shunting "
+    "yard re-associates a+b-c as a+(b-c) and a*b/c as a*(b/c); equal in exact arithmetic, measured <= 1e-9 relative in the float run.",
+    "Input strings are ASCII (str.isdigit on non-ASCII digits is not modelled); metric ids are parsed by int().",
+    "Builder objects are used linearly (a HigherOrderFormulaBuilder mutates itself in _push and returns self; "
+    "re-using one builder object in two places aliases them). Engines may be shared freely.",
+    "A formula has at least one input stream (FormulaEngine._run spins without awaiting when there is no fetcher).",
+    "All streams deliver their samples for one timestamp in lock-step (synchronisation is property C06).",
+]
+TRUSTED = ["harness/formula.py XF (float subclass carrying an exact Fraction: makes the engine's arithmetic exact)",
+           "async_solipsism event loop"]
+
 META = {
-    "technique": "Coq proof (compiler correctness of the shunting-yard builder by structural induction over expressions; "
-                 "invariant over the operator-stack shapes) + T-tie translation of _operator_precedence + differential "
-                 "correspondence of Tokenizer/FormulaBuilder/HigherOrderFormulaBuilder/FormulaEvaluator vs the model evaluated in Coq",
-    "level_text": "see props/C05.v",
-    "level_note": "filled in below",
+    "technique": "Coq proof (compiler correctness of the shunting-yard FormulaBuilder by structural induction over formulas: "
+                 "invariant over the 16 reachable operator-stack shapes, generic refinement push_oper/finalize -> semantic machine, "
+                 "lifting through parentheses; HigherOrderFormulaBuilder trees by induction; tokenizer read-back) + T-tie "
+                 "translation of _operator_precedence + differential correspondence of Tokenizer / ResampledFormulaBuilder.from_string / "
+                 "FormulaBuilder / HigherOrderFormulaBuilder / FormulaEvaluator vs the model evaluated inside Coq",
+    "level_text": "Machine-checked theorems, closed under the global context, on a Gallina model of tokenizer, FormulaBuilder "
+                  "(push_oper/push_metric/push_constant/finalize), the higher-order builder's token discipline and the post-fix evaluator, "
+                  "whose precedence table is regenerated from /repo on every run: (1) every spelling of a token list tokenizes back; "
+                  "(2) for EVERY well-formed formula (grammar form, any nesting / redundant parentheses) and for every AST printed by the "
+                  "standard printer, the compiled program emits the value under ordinary precedence and left-to-right evaluation, with "
+                  "None for a zero divisor or a missing needed input (exact arithmetic, no use of x/0=0); (3) for EVERY builder tree over "
+                  "+ - * / max min consumption production, engines, builders and constants the compiled program computes the tree's value, "
+                  "for every rounding function. The rest of the model is tied to the code by running the real from_string path and the real "
+                  "operator API on thousands of generated formulas (exact-rational run compared bit for bit inside Coq: emitted step list, "
+                  "fetcher flags and every emitted sample; float run judged up to 1e-9) and by an independent Fraction evaluation of the AST.",
+    "level_note": "Proved on the model, not on CPython: the tie is checked (T-tie for the table, C-tie for everything else), not proved. "
+                  "String theorems are for exact arithmetic; IEEE rounding/overflow is only a parameter (rnd) in the operator-API theorems. "
+                  "Trusted: Coq kernel + vm_compute, tools/translate.py, the harness (generator coverage bounds the tie; XF exact-float class), "
+                  "asyncio/frequenz.channels delivering lock-step samples. Out of scope and found while building: re-using one builder object "
+                  "twice (aliasing through _push's mutation) and formulas without any input stream (engine loop spins).",
 }
